@@ -105,6 +105,17 @@ fn descend<'a>(mut cur: &'a mut Map, dirs: &[&[u8]], create: bool) -> Option<&'a
     }
     Some(cur)
 }
+/// readable form of a model state: `{a/: {b: BlobI1}, b: ExeI2}`
+fn render(m: &Map) -> String {
+    let items: Vec<String> = m
+        .iter()
+        .map(|(k, n)| match n {
+            Node::Leaf(v) => format!("{}: {v:?}", k.as_bstr()),
+            Node::Dir(d) => format!("{}/: {}", k.as_bstr(), render(d)),
+        })
+        .collect();
+    format!("{{{}}}", items.join(", "))
+}
 fn m_upsert(root: &mut Map, path: &[&[u8]], v: Val) {
     let (last, dirs) = path.split_last().expect("non-empty path");
     let d = descend(root, dirs, true).expect("created");
@@ -179,10 +190,16 @@ fn build(m: &Map, dirs: &Dirs, store: Option<&Store>) -> Option<ObjectId> {
         mk.push(0);
     }
     let id = gix_object::compute_hash(gix_hash::Kind::Sha1, gix_object::Kind::Tree, &bytes);
-    let known = dirs.read().map(|d| d.contains_key(&id)).unwrap_or(false);
-    if !known {
-        if let Ok(mut d) = dirs.write() {
-            d.insert(id, mk);
+    // per-thread memo in front of the shared map: most directories repeat, and the shared lock is expensive on a busy machine
+    thread_local! {
+        static SEEN: RefCell<std::collections::HashSet<ObjectId>> = RefCell::new(Default::default());
+    }
+    if SEEN.with(|s| s.borrow_mut().insert(id)) {
+        let known = dirs.read().map(|d| d.contains_key(&id)).unwrap_or(false);
+        if !known {
+            if let Ok(mut d) = dirs.write() {
+                d.insert(id, mk);
+            }
         }
     }
     if let Some(s) = store {
@@ -293,6 +310,12 @@ struct Stats {
 }
 impl Stats {
     fn state(&self, h: u64) {
+        thread_local! {
+            static SEEN: RefCell<std::collections::HashSet<u64>> = RefCell::new(Default::default());
+        }
+        if !SEEN.with(|s| s.borrow_mut().insert(h)) {
+            return;
+        }
         if let Ok(mut s) = self.states[(h % self.states.len() as u64) as usize].lock() {
             s.insert(h);
         }
@@ -317,7 +340,7 @@ fn run_history(h: &History, dirs: &Dirs, st: &Stats) -> Result<&'static str, Str
     let mut editor = tree::Editor::new(root, &store, gix_hash::Kind::Sha1);
     let mut type_change = false;
     let mut wrote_mid = false;
-    let show = |m: &Map| format!("{m:?}");
+    let show = render;
     for (i, op) in h.ops.iter().chain(std::iter::once(&Op::Write)).enumerate() {
         let is_final = i == h.ops.len();
         st.transitions.fetch_add(1, Relaxed);
@@ -466,12 +489,12 @@ pub fn run(run: &'static Run) {
     let quick_alpha = ops_alphabet(0);
     let quick_len = ops_alphabet(1).len();
     let siblings = sibling_alphabet();
-    let sibling_depth = if thorough { 5 } else { 4 };
+    let sibling_depth = if thorough { 5 } else { 3 };
     run.rule(format!(
         "operations ({} quick / {} thorough): upsert(p, v) and remove(p) for p in {{a, a/b, a/b/c, a., a0, b, ab/x, a-b/x, a/b./x}} (thorough + a-, a/b., a.d/x) and v in {{blob i1, exe i2, tree = empty-tree id, blob with null id (placeholder)}} (thorough + link at a), \
          write, set_root(empty), set_root(T0), cursor_at(q) alone and followed by upsert(b | b/c, blob) / upsert(b, empty tree) / remove(b | b/c) / write for q in {{a, a/b}}; \
          initial roots: empty and T0 = {{a/b/c, a/b., a0, b}} (three levels, sort-sensitive names); every history of length 0..=3 (thorough: 0..=3 over the larger alphabet plus length 4 over the base alphabet without the x-paths) from both roots, no state merging; \
-         sub `siblings`: every history of length 0..=4 (thorough 0..=5) over {} operations that interleave cursor upserts/removes/writes at a and a/b with pending root-editor edits in directories whose names have the cursor directory name as a byte prefix (ab/, a-b/, a.d/, a/b./, a/bc/), from the empty root, T0 and T1 = T0 + {{a-b/y, ab/y}}; \
+         sub `siblings`: every history of length 0..=3 (thorough 0..=5) over {} operations that interleave cursor upserts/removes/writes at a and a/b with pending root-editor edits in directories whose names have the cursor directory name as a byte prefix (ab/, a-b/, a.d/, a/b./, a/bc/), from the empty root, T0 and T1 = T0 + {{a-b/y, ab/y}}; \
          each followed by a final write. Reference: nested-map model (insert replaces what it shadows, prefixes become directories, traversed empty-tree entries become plain directories, write drops placeholders and empty directories), \
          root/cursor ids from a from-scratch builder; every tree handed to the out callback must be in git order, without placeholders/duplicates and non-empty (except the (sub)root). \
          Every distinct directory the builder produced is rebuilt by `git mktree --batch` and the ids compared.",
